@@ -59,7 +59,9 @@ def check_node(node, wrote, restored_from=None):
     live, F = node["live"], node["folder"]
     table = dict(live.samplers_id_table)
     ref_live = node["ref_table"]
-    persist_matters = ref_construct([type(s).__name__ for s in live.scheduler.samplers]) != ref_live
+    # would a CORRECT in-memory table also be unrecoverable from the checkpoint? judged on the line-up the USER set last
+    # (not on what the implementation's scheduler holds now, which a defect may have reordered)
+    persist_matters = ref_construct(node.get("ref_lineup") or [type(s).__name__ for s in live.scheduler.samplers]) != ref_live
     # 1. never reassigned / unique
     for cls, i in node["first_ids"].items():
         if table.get(cls) != i:
@@ -128,7 +130,7 @@ def bfs(cell):
         cfg = {"lineup": [{"cls": c, "bs": 1 + i % 2} for i, c in enumerate(init)], "seed": cell["seed"], "dims": 2, "model": "const2", "ensemble": 1, "saving_folder": str(d0 / "F")}
         live = C.build(cfg)
         t0 = ref_construct([cname(c) for c in init])
-        node0 = {"live": live, "dir": d0, "folder": d0 / "F", "producers": [], "ref_table": t0, "first_ids": dict(live.samplers_id_table), "saved_table": None, "hist": []}
+        node0 = {"live": live, "dir": d0, "folder": d0 / "F", "producers": [], "ref_table": t0, "ref_lineup": [cname(c) for c in init], "first_ids": dict(live.samplers_id_table), "saved_table": None, "hist": []}
         for key, what in check_node(node0, False):
             viol(key, what, [])
         frontier = [node0]
@@ -165,6 +167,7 @@ def bfs(cell):
                             # the history on disk may be older than the live one: producers of the saved rows
                             n2["producers"] = n2["producers"][:len(l2.method_samp)] if len(l2.method_samp) <= len(n2["producers"]) else n2["producers"]
                             n2["ref_table"] = dict(nd["saved_ref_table"])
+                            n2["ref_lineup"] = list(nd["saved_ref_lineup"])
                             n2["first_ids"] = {k: v for k, v in nd["saved_first_ids"].items()}
                         else:
                             names = LINEUPS[int(op[3:])]
@@ -177,6 +180,7 @@ def bfs(cell):
 
                                     l2.set_scheduler(RoundRobinScheduler(samplers))
                             n2["ref_table"] = ref_update(nd["ref_table"], [cname(c) for c in names])
+                            n2["ref_lineup"] = [cname(c) for c in names]
                     except ValueError as e:
                         if "best-batch sampler requires" in str(e):
                             continue  # operation not enabled in this state
@@ -189,6 +193,7 @@ def bfs(cell):
                         n2["first_ids"].setdefault(cls, i)
                     if wrote:
                         n2["saved_ref_table"] = dict(n2["ref_table"])
+                        n2["saved_ref_lineup"] = list(n2["ref_lineup"])
                         n2["saved_first_ids"] = dict(n2["first_ids"])
                     res["evaluations"] += 1
                     if op != "c1":
@@ -230,7 +235,8 @@ def replay_case(case):
         F = root / "F"
         cfg = {"lineup": [{"cls": c, "bs": 1 + i % 2} for i, c in enumerate(init)], "seed": case.get("seed", 0), "dims": 2, "model": "const2", "ensemble": 1, "saving_folder": str(F)}
         live = C.build(cfg)
-        node = {"live": live, "folder": F, "producers": [], "ref_table": ref_construct([cname(c) for c in init]), "first_ids": dict(live.samplers_id_table), "saved_table": None}
+        node = {"live": live, "folder": F, "producers": [], "ref_table": ref_construct([cname(c) for c in init]), "first_ids": dict(live.samplers_id_table), "saved_table": None,
+                "ref_lineup": [cname(c) for c in init]}
         saved = {}
         for i, op in enumerate(ops):
             wrote, restored_from = False, None
@@ -249,6 +255,7 @@ def replay_case(case):
                     node["producers"] = node["producers"][:len(node["live"].method_samp)]
                     node["ref_table"] = dict(saved["ref_table"])
                     node["first_ids"] = dict(saved["first_ids"])
+                    node["ref_lineup"] = list(saved["ref_lineup"])
                 else:
                     names = LINEUPS[int(op[3:])]
                     samplers = make_lineup(names)
@@ -260,12 +267,13 @@ def replay_case(case):
 
                             node["live"].set_scheduler(RoundRobinScheduler(samplers))
                     node["ref_table"] = ref_update(node["ref_table"], [cname(c) for c in names])
+                    node["ref_lineup"] = [cname(c) for c in names]
             except Exception as e:  # noqa: BLE001
                 return [{"key": "operation-raises:" + op.split(":")[0], "what": f"{type(e).__name__}: {e}"}]
             for cls, k in node["live"].samplers_id_table.items():
                 node["first_ids"].setdefault(cls, k)
             if wrote:
-                saved = {"ref_table": dict(node["ref_table"]), "first_ids": dict(node["first_ids"])}
+                saved = {"ref_table": dict(node["ref_table"]), "first_ids": dict(node["first_ids"]), "ref_lineup": list(node["ref_lineup"])}
             vs = check_node(node, wrote, restored_from)
             if vs:
                 out = [{"key": k, "what": w} for k, w in vs]
